@@ -38,7 +38,7 @@ def run(ctx):
     ctx.run_rule("A", r_asm.rule_A)
     ctx.run_rule("G1asm", r_asm.rule_G1asm)
     ctx.run_rule("K1asm", r_asm.rule_K1asm)
-    cfgs = ["asm-full", "pure-full", "portable1"] if ctx.tier == "quick" else ["asm-full", "pure-full", "intr-full", "asm-default", "portable1"]
+    cfgs = ["asm-full", "pure-full", "portable1"] if ctx.tier == "quick" else ["asm-full", "pure-full", "intr-full", "asm-default", "portable1", "neon1"]
     ctx.prefetch(cfgs)
     ctx.run_rule("D1", r_dispatch.rule_D1, cfgs)
     ctx.run_rule("K3M1", r_consts.rule_K3_M1, cfgs)
@@ -54,7 +54,7 @@ def run(ctx):
     ctx.run_rule("R1asmX", r_asmsym.rule_R1asm_xof)
     try:
         import r_ffi
-        ctx.run_rule("M2", r_ffi.rule_M2, [c for c in cfgs if c.startswith("asm") or c.startswith("intr")])
+        ctx.run_rule("M2", r_ffi.rule_M2, [c for c in cfgs if c.startswith("asm") or c.startswith("intr") or c == "neon1"])
         ctx.run_rule("M3", r_ffi.rule_M3, [c for c in cfgs if c != "portable1"])
     except ImportError:
         pass
